@@ -14,7 +14,7 @@ cargo build --release -p seq --config "paths=[\"$SC\"]" --target-dir "$TG" >> /t
 CAUGHT=""
 for P in "$@"; do
   case "$P" in
-    C18) ENGS="seq" ;;
+    C18) ENGS="seq conc" ;;
     C01|C08|C12|C16) ENGS="conc seq" ;;
     C17) ENGS="lock" ;;
     *) ENGS="conc" ;;
